@@ -893,3 +893,25 @@ pub fn plant_undeclared_biomass_dhw(spec: &mut Spec, r: &mut Rng) {
     }
     r.shuffle(&mut spec.lines);
 }
+
+/// Plant a large plant room: 35 to 60 more systems, each with one service, a consumption line and auxiliaries of its
+/// own (a size no fixed-capacity table or "first N systems" loop would have been written for).
+pub fn plant_many_aux_systems(spec: &mut Spec, r: &mut Rng) {
+    let n = spec.n;
+    let k = 35 + r.usize(26);
+    let used: Vec<i32> = spec.lines.iter().filter_map(|l| l.id()).collect();
+    let mut id = 200;
+    for _ in 0..k {
+        while used.contains(&id) {
+            id += 1;
+        }
+        let srv = *r.pick(&["CAL", "ACS", "REF", "VEN"]);
+        let cr = *r.pick(&["ELECTRICIDAD", "GASNATURAL", "ELECTRICIDAD"]);
+        let v: Vec<f32> = (0..n).map(|_| (8 + r.below(400)) as f32 / 8.0).collect();
+        let w: Vec<f32> = (0..n).map(|_| (1 + r.below(40)) as f32 / 8.0).collect();
+        spec.lines.push(Line::Used { id, srv: srv.into(), cr: cr.into(), v, comment: String::new() });
+        spec.lines.push(Line::Aux { id, v: w, comment: String::new() });
+        id += 1 + r.below(3) as i32;
+    }
+    r.shuffle(&mut spec.lines);
+}
